@@ -21,6 +21,11 @@ Independent specification of C09, written from the property text (it shares only
   decorator, an `Enum`, a dataclass — and nothing is imposed (no check: in particular the decoration cannot raise).  What the
   decorators do to such an object when switched ON is not the subject of this property (`unclaimed`).
 
+* "they check" includes, for the checking decorators of the pedantic family on a class that lists `typing.Generic[…]`, that an
+  instance created WITHOUT type arguments is turned away when a checked method is called on it (PedanticTypeVarMismatchException)
+  — decided, like every other check, when the class is decorated: toggling the variable afterwards changes nothing.  A plain sub
+  class `class S(Base): pass` lists no `Generic[…]` itself; nothing of that kind is asked of its instances.
+
 Other values of the variable are not claimed (`unclaimed`).
 -/
 namespace PedVerif.Switch
@@ -40,6 +45,12 @@ def Deco.effect : Deco → Effect
   | .pedantic | .pedanticDoc | .pedanticClass | .pedanticClassDoc => .checks
   | .traceClass | .timerClass => .prints
   | .forAll i => i.effect
+
+/-- … for this target: the pedantic family on a generic class also insists on type arguments for every instance -/
+def Deco.effectOn (d : Deco) (t : Target) : Effect :=
+  match d.effect with
+  | .checks => if d.onClass && t.generic then .checksGeneric else .checks
+  | e => e
 
 def Deco.requiresDoc : Deco → Bool
   | .pedanticDoc | .pedanticClassDoc | .forAll .pedanticDoc => true
@@ -89,7 +100,7 @@ def specDecorate (s : SSt) (d : Deco) (t : Target) : SSt × SObs :=
   | some true =>
     if t.odd || d.onClass != t.isClass then (spush s .unclaimed, .unclaimed)   -- not an object the decorator is made for
     else if d.requiresDoc && !t.hasDoc then (spush s .dead, .exact .decoRaised)
-    else (spush s (.active d.effect), .enabledDeco)
+    else (spush s (.active (d.effectOn t)), .enabledDeco)
 
 def specApply (s : SSt) (k : Nat) (t : Target) : SSt × SObs :=
   match s.factories[k]? with
@@ -99,7 +110,9 @@ def specApply (s : SSt) (k : Nat) (t : Target) : SSt × SObs :=
 def specCall (h : SHandle) (k : CallKind) : SObs :=
   match h with
   | .identity => .exact (.called false false false)
-  | .active .checks => .exact (.called (match k with | .good => false | _ => true) false false)
+  | .active .checks => .exact (.called (match k with | .positional => true | .wrongType => true | _ => false) false false)
+  | .active .checksGeneric =>
+    .exact (.called (match k with | .positional => true | .wrongType => true | .unparamInst => true | _ => false) false false)
   | .active .prints => .exact (.called false true false)
   | .active .marks => .exact (.called false false true)
   | .dead => .exact .bad
@@ -107,9 +120,12 @@ def specCall (h : SHandle) (k : CallKind) : SObs :=
 
 /-- one form of access only for a property -/
 def specKind (m : Member) (k : CallKind) : CallKind :=
-  match m with
-  | .propGet | .propSet => (match k with | .positional => .good | k => k)
-  | _ => k
+  match k with
+  | .unparamInst | .paramInst => .good       -- the instance is the harness' own: a conforming call
+  | k =>
+    match m with
+    | .propGet | .propSet => (match k with | .positional => .good | k => k)
+    | _ => k
 
 /-- a member of a class, reached through the class object or an instance.  Not claimed here: a class method / static method
     of a class whose members were wrapped by trace / timer / a foreign decorator, called through an instance (what
@@ -117,7 +133,7 @@ def specKind (m : Member) (k : CallKind) : CallKind :=
 def specCallM (h : SHandle) (m : Member) (v : Via) (k : CallKind) : SObs :=
   match h with
   | .identity => .exact (.called false false false)
-  | .active .checks => .exact (.called (match specKind m k with | .good => false | _ => true) false false)
+  | .active .checks | .active .checksGeneric => .exact (.called (match specKind m k with | .good => false | _ => true) false false)
   | .active e =>
     match m, v with
     | .classMethod, .inst => .unclaimed
@@ -151,9 +167,10 @@ def specStep (s : SSt) : Op → SSt × SObs
     match s.handles[h]?, s.targets[h]? with
     | some hd, some (some t) =>
       if t.isClass && !t.odd then
-        srecord (some t) (match hd with
+        srecord (some { t with generic := false }) (match hd with
           | .dead => (spush s .dead, .exact .bad)
           | .unclaimed => (spush s .unclaimed, .unclaimed)
+          | .active .checksGeneric => (spush s (.active .checks), .exact .derived)   -- the sub class itself lists no `Generic[…]`
           | hd => (spush s hd, .exact .derived))
       else srecord none (spush s .dead, .exact .bad)
     | _, _ => srecord none (spush s .dead, .exact .bad)
